@@ -90,7 +90,7 @@ def run(ctx):
             rets = [s for s in walk_no_nested(f.node) if isinstance(s, ast.Return)]
             ok = len(rets) == 1 and ('[:%s.max_name_len]' % f.recv) in norm(rets[0].value)
             ctx.ob('C26-LIMIT.normalize-truncates-to-dialect-limit', f, rets[0] if rets else f.node, ok, '' if ok else 'normalize_name does not truncate to provider.max_name_len')
-    ctx.floor('C26-LIMIT', n, 9, 'return statements of default-name generators')
+    ctx.floor('C26-LIMIT', n, 7, 'return statements of default-name generators')
 
     # ---------------------------------------------------------------- UNIQUE
     DS = 'pony.orm.dbschema'
